@@ -37,7 +37,15 @@ SPEC = {
         "exp offline = `empty(nbins, *shape, float64).exponential_(1.0, generator)` with nbins = int(steps // max(refrac/dt, 1)); "
         "exp online = `empty(shape).exponential_()` once, then per step `empty(k).exponential_()` for the k firing elements (row-major); "
         "poisson offline = `torch.poisson(rates.expand(steps+2, *shape))`; poisson online = `torch.poisson(rates)` once, then "
-        "`torch.poisson(rates[spikes])` per step; bernoulli = `torch.rand(shape, float64) < p` (one draw of the whole tensor offline, one per step online)",
+        "`torch.poisson(rates[spikes])` per step; bernoulli = `torch.rand(shape, dtype of p) < p` (one draw of the whole tensor offline, one per step online)",
+        "`torch.bernoulli(p, generator=g)` on CPU == `torch.rand(p.shape, dtype=p.dtype, generator=g) < p` (strict), in output AND in the generator state it leaves, for float32 and "
+        "float64 p (established by experiment, re-validated on every Bernoulli case; a float32 stream runs against a Float32 copy of the model)",
+        "Bernoulli strictness probes use generator positions found by a deterministic search (fixed seeds): a position whose next float32 uniform is exactly 0.0 "
+        "(lands on a silent element: must stay silent) and positions whose next uniform u0 < 2^-10 equals the element's probability exactly (must not fire); "
+        "a float64 zero sample (2^-53) cannot be exhibited",
+        "partial (float): for non-representable dt (0.1, 0.2, 0.3) with refrac = n*dt or its decimal literal, the theorem-backed demand is floor(refrac/dt) of the doubles (may be n-1); "
+        "the search additionally judges the real output with the nominal demand round(refrac/dt) = n (finding key `gap-nominal`), which float rounding could in principle miss by one step "
+        "only when a cumulative time is within 1e-15 of an integer",
         "supports of the samplers: exponential_ > 0, torch.poisson(0) = 0, torch.rand in [0,1) — hypotheses of the theorems, asserted on every replayed tensor",
         "inputs are float64, non-negative, +0.0 for silence (the functions document non-negative inputs; -0.0 and negative rates are not generated)",
         "theorems are about the exact (Rat) model; the Float model with the same operation order is what is compared with torch — "
